@@ -8,6 +8,7 @@ import (
 	"math/big"
 	"sort"
 	"strings"
+	"time"
 
 	"github.com/NethermindEth/juno/core"
 	"github.com/NethermindEth/juno/core/crypto"
@@ -522,10 +523,11 @@ func evalTrieCase(or *hx.Oracle, c trieCase) (*trieVerdict, map[string]any) {
 }
 
 func shrinkTrie(or *hx.Oracle, c trieCase, class string) trieCase {
+	deadline := time.Now().Add(shrinkBudget)
 	changed := true
-	for changed {
+	for changed && time.Now().Before(deadline) {
 		changed = false
-		for i := len(c.Ops) - 1; i >= 0; i-- {
+		for i := len(c.Ops) - 1; i >= 0 && time.Now().Before(deadline); i-- {
 			d := c
 			d.Ops = append(append([]string{}, c.Ops[:i]...), c.Ops[i+1:]...)
 			d.Reopen = nil
@@ -784,15 +786,20 @@ func evalState(or *hx.Oracle, sc stateCase) (class, what string, detail map[stri
 	return "", "", nil
 }
 
+// shrinkBudget bounds the time one shrink may take (bulk cases with hundreds of items re-run whole chains per
+// candidate); when it is used up the smallest failing case found so far is reported
+const shrinkBudget = 40 * time.Second
+
 func shrinkState(or *hx.Oracle, sc stateCase, class string) stateCase {
+	deadline := time.Now().Add(shrinkBudget)
 	changed := true
-	for changed {
+	for changed && time.Now().Before(deadline) {
 		changed = false
-		for b := len(sc.Blocks) - 1; b >= 0; b-- {
+		for b := len(sc.Blocks) - 1; b >= 0 && time.Now().Before(deadline); b-- {
 			items := strings.Fields(sc.Blocks[b])
 			// delta debugging: drop chunks of items, halving the chunk size down to single items
 			for chunk := (len(items) + 1) / 2; chunk >= 1; chunk /= 2 {
-				for i := len(items) - chunk; i >= 0; i -= chunk {
+				for i := len(items) - chunk; i >= 0 && time.Now().Before(deadline); i -= chunk {
 					if i+chunk > len(items) {
 						continue
 					}
